@@ -4751,9 +4751,7 @@ def _form_to_layout(
         return ak.layout.NumpyArray(array, identities, parameters)
 
     elif isinstance(form, ak.forms.RecordForm):
-        items = list(form.contents.items())
-        if form.istuple:
-            items.sort(key=lambda x: int(x[0]))
+        items = [(form.key(i), form.content(i)) for i in range(form.numfields)]
         contents = []
         minlength = None
         keys = []
